@@ -264,6 +264,26 @@ func FamValues[T any](c Codec[T], stream bool, chunk int, seed int64, n int) Sys
 		cl.Done = true
 		rec.Calls = append(rec.Calls, cl)
 	}
+	// a burst of pipelined calls in one direction (frames back to back on the transport)
+	{
+		var wg sync.WaitGroup
+		var mu sync.Mutex
+		for k := 0; k < 6; k++ {
+			tag := 280 + k
+			s := fmt.Sprintf("%c%s", 'a'+k, strings.Repeat(string(rune('a'+k)), 7-k))
+			wg.Add(1)
+			go func() {
+				defer wg.Done()
+				v, err := p.ra.EchoStr(ctx, tag, s)
+				mu.Lock()
+				rec.Calls = append(rec.Calls, SysCall{Tag: tag, From: "A", Method: "EchoStr", Arg: canon(s), Oracle: roundTrip(c, s), Ret: canon(v), Err: errText(err), Done: true})
+				mu.Unlock()
+			}()
+		}
+		if !waitAll(&wg, 8*time.Second) {
+			rec.Hang = true
+		}
+	}
 	rec.LinkA, rec.LinkB = p.close()
 	rec.Events = p.w.Events()
 	return rec
